@@ -172,10 +172,10 @@ func (b *BoundedBacktracker) reset(state *BacktrackerState, haystackLen int) {
 			state.Visited[i] = 0
 		}
 		state.Generation = 1
-		vwrap = 1
+		vwrap = len(state.Visited) // entries cleared
 	}
 	if verifhook.On {
-		verifhook.Emit("btreset", entriesNeeded, vcap, vrealloc, int(state.Generation), vwrap, b.numStates, haystackLen, cap(state.Visited))
+		verifhook.Emit("btreset", entriesNeeded, vcap, vrealloc, int(state.Generation), vwrap, b.numStates, haystackLen, cap(state.Visited), b.maxVisitedSize)
 	}
 }
 
@@ -307,7 +307,7 @@ func (b *BoundedBacktracker) SearchAtWithState(haystack []byte, at int, state *B
 				state.Visited[i] = 0
 			}
 			state.Generation = 1
-			vwrap = 1
+			vwrap = len(state.Visited) // entries cleared
 		}
 		if verifhook.On {
 			verifhook.Emit("btbump", int(state.Generation), vwrap)
